@@ -376,6 +376,76 @@ def _closure_parts(arg_toks):
     return None
 
 
+def _recv_start(out, i):
+    """start index of the postfix expression that ends just before out[i] (a `.`)"""
+    s = i
+    while s > 0:
+        t = out[s - 1]
+        if t in (")", "]"):
+            depth, q = 0, s - 1
+            while q >= 0:
+                if out[q] in (")", "]", "}"): depth += 1
+                if out[q] in ("(", "[", "{"):
+                    depth -= 1
+                    if depth == 0: break
+                q -= 1
+            s = q; continue
+        if IDENT_RE.match(t) and t not in ("in", "return", "let", "if", "else", "match", "mut") or t in (".", "::", "self", "?") or (t.isdigit() and s >= 2 and out[s - 2] == "."):
+            s -= 1; continue
+        break
+    return s
+
+
+def option_idioms(toks, log):
+    """R9: `RECV.is_some_and(|x| BODY)` -> `(match RECV { Some(x) => BODY, None => false })`; likewise is_none_or / map_or(D, |x| BODY)"""
+    out = list(toks)
+    for _ in range(40):
+        hit = None
+        for j in range(len(out) - 3):
+            if out[j] == "." and out[j + 1] in ("is_some_and", "is_none_or", "map_or") and out[j + 2] == "(":
+                hit = j; break
+        if hit is None:
+            return out
+        j = hit
+        c = match_close(out, j + 2)
+        args = out[j + 3:c]
+        if args and args[-1] == ",":
+            args = args[:-1]
+        dflt = None
+        if out[j + 1] == "map_or":
+            d, k = 0, None
+            for q, t in enumerate(args):
+                if t in ("(", "[", "{"): d += 1
+                elif t in (")", "]", "}"): d -= 1
+                elif t == "," and d == 0:
+                    k = q; break
+            if k is None:
+                out[j + 1] = "verif_untranslated_" + out[j + 1]; continue
+            dflt, args = args[:k], args[k + 1:]
+        else:
+            dflt = ["false"] if out[j + 1] == "is_some_and" else ["true"]
+        cp = _closure_parts(args)
+        if cp is None:
+            out[j + 1] = "verif_untranslated_" + out[j + 1]; continue        # fails closed (unknown method)
+        x, body = cp
+        s = _recv_start(out, j)
+        new = ["(", "match", *out[s:j], "{", "Some", "(", x, ")", "=>", "{", *body, "}", ",", "None", "=>", *dflt, "}", ")"]
+        log.append(("R9", text(out[s:c + 1])[:170], text(new)[:170], f"Option::{out[j + 1]} with a closure -> match"))
+        out = out[:s] + new + out[c + 1:]
+    return out
+
+
+def parser_idioms():
+    """vocabulary of the parser units (prelude/parser.rs): tests on the kind of a pest node or of a parsed value that a change may add.
+    Their results are uninterpreted: a decision routed through one of them is a decision the contract knows nothing about."""
+    return [
+        Rule("R6", "$n . as_rule ( ) == Rule :: $r", lambda b: f'node_has_rule ( & {text(b["n"])} , "{text(b["r"])}" )', why="pest rule test abstract (uninterpreted per node and rule name)"),
+        Rule("R6", "$n . as_rule ( ) != Rule :: $r", lambda b: f'! node_has_rule ( & {text(b["n"])} , "{text(b["r"])}" )', why="pest rule test abstract"),
+        Rule("R6", "matches ! ( $v , Value :: $k ( $$p ) )", lambda b: f'value_has_kind ( & {text(b["v"])} , "{text(b["k"])}" )', why="test on the syntactic kind of a parsed value: abstract (uninterpreted)"),
+        Rule("R6", "matches ! ( $v , Value :: $k { $$p } )", lambda b: f'value_has_kind ( & {text(b["v"])} , "{text(b["k"])}" )', why="test on the syntactic kind of a parsed value: abstract (uninterpreted)"),
+    ]
+
+
 def normalize_chains(toks, log):
     out = list(toks)
     guard = 0
@@ -512,3 +582,53 @@ def normalize_chains(toks, log):
                 continue
         start = i + 1
     return out
+
+
+# ---------------------------------------------------------------------------------------------------------------------
+# R15: pure predicate helpers.  A change may route a decision through a helper method the unit has never seen (`scope.owns_runtime_frame()`).
+# Every `fn name(&self) -> bool { EXPR }` of the given impl whose body is ONE expression (no statement) and that is not already under
+# contract is carried along with its own body as its contract (`ensures r == (EXPR)`): nothing is assumed about it, the callers'
+# contracts are checked against what it computes.  A body Verus cannot read as a specification expression fails closed (unit does
+# not compile -> undecided).
+def pure_helpers(src, rel, within, have, log, rules=()):
+    from .extract import find_block_after
+    toks = src.toks(rel)
+    try:
+        _, lo, hi = find_block_after(toks, within)
+    except Exception as e:
+        raise Undecided(f"{rel}: cannot locate `{within}`: {e}")
+    out, j = [], lo + 1
+    while j < hi:
+        t = toks[j]
+        if t == "fn":
+            name = toks[j + 1]
+            k = j
+            while k < hi and toks[k] not in ("{", ";"):
+                if toks[k] in ("(", "["):
+                    k = match_close(toks, k)
+                k += 1
+            if k >= hi or toks[k] == ";":
+                j = k + 1
+                continue
+            c = match_close(toks, k)
+            sig, body = toks[j:k], toks[k + 1:c]
+            j = c + 1
+            if name in have or ";" in body or "self" not in sig:
+                continue
+            if text(sig[2:]).replace(" ", "") != "(&self)->bool":
+                continue
+            b = translate(body, list(rules), log, f"{within} :: {name}")
+            try:
+                check_closed(b, name)
+            except Undecided:
+                continue
+            # a specification expression: no calls (tuple-variant patterns `Type::Variant(..)` are not calls)
+            if any(b[i + 1] == "(" and re.match(r"[a-z_]\w*$", b[i]) and b[i] not in ("match", "if") for i in range(len(b) - 1)):
+                continue
+            log.append(("R15", f"fn {name}(&self) -> bool", f"carried along, contract = its own body", "pure predicate helper"))
+            out.append(f"    pub fn {name}(&self) -> (r: bool) ensures r == ({render(b, 0).strip()})\n    {{\n{render(b, 2)}\n    }}")
+        elif t == "{":
+            j = match_close(toks, j) + 1
+        else:
+            j += 1
+    return "\n".join(out)
